@@ -611,6 +611,22 @@ R.case("C05[hash:stable-under-lookups]")
 if hash(u0) != h0 or hash(Unit("km", registry=reg)) != h0 or hash(Unit("m", registry=reg) * 1000 if False else u0) != h0:
     fail("C05[hash:stable-under-lookups]", "hash of Unit('km') changed after other prefixed names were looked up in its registry")
 
+# a unit that was hashed, then rewritten in place by simplify(), hashes like any other unit with its (new)
+# expression: "units built from the same expression in the same registry state hash equally" holds for objects
+# with a past too (a hash kept from before the rewrite would split one unit into two dict keys)
+for n in ["m**2/cm", "km*s/(m*ms)", "g*cm/kg", "J/erg*s", "kg*m/s**2/N*K", "km/s"]:
+    R.case("C05[hash:after-simplify:%s]" % n)
+    st, res = safe(lambda: (lambda u: (hash(u), u.simplify(), hash(u), hash(Unit(u.expr, registry=u.registry)), u))(Unit(n)))
+    if st == "exc":
+        R.notes.append("hash/simplify scenario %r raised %r" % (n, res))
+        continue
+    _h0, _su, h_after, h_rebuilt, u_ = res
+    if h_after != h_rebuilt or len({u_, Unit(u_.expr, registry=u_.registry)}) != 1:
+        fail("C05[hash:after-simplify]", "Unit(%r) hashed, then simplify()d to %s: hash %r, a unit rebuilt from that expression "
+             "hashes %r" % (n, u_.expr, h_after, h_rebuilt),
+             replay_script("u = unyt.Unit(%r)\nhash(u)\nu.simplify()\nv = unyt.Unit(u.expr, registry=u.registry)\n"
+                           "print(u.expr, hash(u), hash(v))\nsys.exit(0 if hash(u) == hash(v) and len({u, v}) == 1 else 1)\n" % n))
+
 # ------------------------------------------------------------------------------------------
 # 5. simplify() and as_coeff_unit() denote the same unit
 def simp_check(text, ent=None, reg=None, regsrc=""):
